@@ -487,6 +487,52 @@ def F25():
     return f"post-pass followed links out of the destination: parent directory (mtime, mode) {before} -> {after}" if after != before and (after[0] == 1000.0 or after[1] == 0o600) else None
 
 
+def _two_file_copy_archive(folder_crc=True, mtimes=None):
+    a, b = b"first member " * 5, b"second member!" * 7
+    data = a + b
+    crcsec = (PROPERTY.CRC + b"\x01" + struct.pack("<L", zlib.crc32(data))) if folder_crc else b""
+    sub = PROPERTY.SUBSTREAMS_INFO + PROPERTY.NUM_UNPACK_STREAM + num(2) + PROPERTY.SIZE + num(len(a)) + PROPERTY.CRC + b"\x01" + \
+        struct.pack("<LL", zlib.crc32(a), zlib.crc32(b)) + PROPERTY.END
+    streams = PROPERTY.PACK_INFO + num(0) + num(1) + PROPERTY.SIZE + num(len(data)) + PROPERTY.END \
+        + PROPERTY.UNPACK_INFO + PROPERTY.FOLDER + num(1) + b"\x00" + num(1) + b"\x01\x00" + PROPERTY.CODERS_UNPACK_SIZE + num(len(data)) + crcsec + PROPERTY.END \
+        + sub + PROPERTY.END
+    names = b"".join(n.encode("utf-16le") + b"\x00\x00" for n in ("a.txt", "b.txt"))
+    files = PROPERTY.FILES_INFO + num(2) + PROPERTY.NAME + num(len(names) + 1) + b"\x00" + names
+    if mtimes is not None:
+        files += PROPERTY.LAST_WRITE_TIME + num(len(mtimes)) + mtimes
+    files += PROPERTY.END
+    hdr = PROPERTY.HEADER + PROPERTY.MAIN_STREAMS_INFO + streams + files + PROPERTY.END
+    return seal(hdr, data), {"a.txt": a, "b.txt": b}
+
+@case
+def F26():
+    # valid archive: mtime defined for the first member only -> extraction to disk
+    mt = b"\x00\x80\x00" + struct.pack("<Q", 116444736000000000 + 10 ** 7 * 1000)
+    blob, want = _two_file_copy_archive(folder_crc=False, mtimes=mt)
+    d = tmp()
+    try:
+        with py7zr.SevenZipFile(io.BytesIO(blob)) as z:
+            z.extractall(d)
+        ok = all(open(os.path.join(d, n), "rb").read() == v for n, v in want.items())
+        return None if ok else "undefined mtime: wrong data extracted"
+    except Exception as e:
+        return f"valid archive with an undefined mtime: extraction to disk raises {type(e).__name__}: {e}"
+
+@case
+def F27():
+    # valid archive: folder-level CRC on a folder that holds two substreams
+    blob, want = _two_file_copy_archive(folder_crc=True)
+    from py7zr.io import BytesIOFactory
+    f = BytesIOFactory(1 << 20)
+    try:
+        with py7zr.SevenZipFile(io.BytesIO(blob)) as z:
+            z.extractall(factory=f)
+        ok = all(f.products[n].read() == v for n, v in want.items())
+        return None if ok else "folder CRC + two substreams: wrong data extracted"
+    except Exception as e:
+        return f"valid archive with a folder-level CRC on a two-member folder raises {type(e).__name__}{e.args}"
+
+
 if __name__ == "__main__":
     ids = sys.argv[1:]
     if ids == ["all"] or not ids:
